@@ -355,6 +355,57 @@ def tok_stream(ck, bcases, splitbytes):
             "ascii_values": sum(1 for k, _ in vl if all(x < 128 for x in json.loads(k)))}
 
 
+def multi_stream(ck, binp):
+    """the reader above the single indexes: engine.NewAttachedIndexReader(...).Next() over several data files with primary
+    index + bloom filter; direct oracle (every fragment with a matching row is delivered) + the model of Multi.v run on the
+    measured answers of the two layers (same files delivered, same ranges, same batches)"""
+    n = 300 if ck.tier == "quick" else 4000
+    rc, cs, out = run_harness(ck, binp, ["multi", str(n)], prefixes=('{"mid"',))
+    if rc != 0 or len(cs) != n:
+        ck.broken.append("harness c20 multi failed rc=%d cases=%d/%d: %s" % (rc, len(cs), n, out[-400:]))
+        return
+    viol = 0
+    for t in cs:
+        if t["oracle"]:
+            viol += 1
+            if viol <= 3:
+                ck.violation({"kind": "direct-oracle", "stream": "multi", "what": t["oracle"][:4], "in": t["in"], "case": t["mid"],
+                              "files": t["files"], "batches": t["batches"]})
+    good = [t for t in cs if not t["err"]]
+    rng = lambda rs: coq_list(["(%s, %s)" % (nat(a), nat(b)) for a, b in rs])
+    shard, files = 300, []
+    for i in range(0, len(good), shard):
+        items = []
+        for t in good[i:i + shard]:
+            fs = coq_list(["(%s, %s)" % (rng(f["pk"]), coq_list([coq_bool(k == 1) for k in f["keep"]])) for f in t["files"]])
+            batch = "(Some %s)" % nat(t["in"]["batchcount"]) if t["in"]["readbatch"] else "None"
+            impl = coq_list([coq_list(["(%s, %s)" % (nat(fi), rng(t["files"][fi]["selected"])) for fi in b]) for b in t["batches"]])
+            items.append("((%s : list (list (nat*nat) * list bool)), (%s : option nat), (%s : list (list (nat * list (nat*nat)))))" % (fs, batch, impl))
+        txt = ("From Coq Require Import List Bool Arith. From OG Require Import C20.Corr.\nImport ListNotations.\n"
+               "Definition R := Eval vm_compute in multi_results [\n%s\n].\nPrint R.\n") % ";\n".join(items)
+        files.append(("m%d" % (i // shard), txt))
+    mism = []
+    for idx, (rc, o) in enumerate(ck.coq_eval_many(files, timeout=600)):
+        m = re.search(r"R\s*=\s*\[([^\]]*)\]", o, re.S) if rc == 0 else None
+        if not m:
+            ck.broken.append("multi-file stream: model evaluation failed: %s" % o[-300:])
+            return
+        mism += [good[idx * shard + int(x)] for x in re.findall(r"\d+", m.group(1))]
+    if mism and not viol:
+        t = mism[0]
+        ck.broken.append("correspondence C20 attachedIndexReader.Next: the files / ranges / batches delivered differ from the model of "
+                         "Multi.v run on the measured answers of the primary-key scan and the skip index (case %d: batches %s)" % (t["mid"], t["batches"]))
+        if not getattr(ck, "nofail_detail", None):
+            ck.nofail_detail = {"kind": "correspondence", "stream": "multi", "in": t["in"], "files": t["files"], "batches": t["batches"]}
+    ck.cov["attached_reader_multi_file"] = {
+        "evaluations": len(cs), "nontrivial": sum(1 for t in cs if t["nontrivial"]), "with_skip_index": sum(1 for t in cs if t["hassk"]),
+        "files_emptied_by_skip_index_only": sum(1 for t in cs for f in t["files"] if f["pk"] and not f["selected"]),
+        "batched": sum(1 for t in cs if t["in"]["readbatch"]), "oracle_failures": viol, "model_mismatches": len(mism),
+        "rule": "2..6 attached data files (rows in the flush sort's order, 1..4 rows per fragment, rare words so that the bloom filter empties whole "
+                "files the primary index kept) x condition trees over the key, MATCHPHRASE on the indexed and on a non-indexed column x batch settings; "
+                "non-trivial = some fragment matches and some fragment is not delivered"}
+
+
 def _coq_atoms(tr):
     if tr[0] == "atom":
         a = tr[1]
@@ -483,11 +534,11 @@ def explained_by_null(t, e, vi):
         all(f < len(cur[1]) and f < len(rep[1]) and (not cur[1][f]) and rep[1][f] for f in bad_frags)
 
 
-def run_harness(ck, binp, args, timeout=1200, env=None):
+def run_harness(ck, binp, args, timeout=1200, env=None, prefixes=('{"id"', '{"bid"', '{"mid"')):
     rc, out = ck.run([binp] + args, timeout=timeout, env=env)
     cases = []
     for l in out.splitlines():
-        if l.startswith('{"id"') or l.startswith('{"bid"'):
+        if l.startswith(prefixes):
             try:
                 cases.append(json.loads(l))
             except ValueError:
@@ -689,6 +740,9 @@ def main(ck):
             t["corpus"] = os.path.basename(f)
         cases += [t for t in cs if "id" in t]
         bcases += [t for t in cs if "bid" in t]
+        for t in cs:
+            if "mid" in t and t["oracle"]:
+                ck.violation({"kind": "direct-oracle", "stream": "multi", "what": t["oracle"][:4], "in": t["in"], "files": t["files"], "batches": t["batches"]})
     ncorpus = len(cases)
     if n:
         nb = 600 if ck.tier == "quick" else 8000
@@ -717,6 +771,8 @@ def main(ck):
                                  "in this check (not covered)" % (diff or pr.get("minmax")))
         else:
             ck.broken.append("harness c20 bloom: skip-index probe line missing")
+    if n:
+        multi_stream(ck, binp)
     if n:
         rc, cs, out = run_harness(ck, binp, ["gen", str(n)])
         if rc != 0 or len(cs) != n:
